@@ -91,3 +91,11 @@ func init() {
 		}
 	}
 }
+
+// hostileLiteralPool: formulas whose literals the scanner has to rewrite while scanning (escapes, digit
+// separators) - the places where working in the caller's buffer would be tempting.
+var hostileLiteralPool = []string{
+	`'it\'s ' + s0`, `'\t'`, `"caf\u00e9 " + s0`, `'a\\b' + 'c'`, `'\x41\x42' + s1`, `"say \"hi\""`, `'x\ny' + "q\rz"`, `len('\u4e2d\u6587') + n0`, `'\0\b\f\v'`,
+	`1_000 + n0`, `1e1_0`, `2.2_5 * 4`, `1_0 + 1`, `0.000_1 + n1`, `1_2_3.4_5e0_1`, `[1_000, 'a\'b', 2_0.5]`, `s0 + '\\' + s1 + '\''`, `'\u0041' == 'A' ? 1_0 : 2_0`,
+	`m.name + '\n'`, `fcat('\t', s0, "\"")`, `replace(s0, 'a', '\\')`, `split('a\tb', '\t')`,
+}
